@@ -178,6 +178,12 @@ func (e *C10) Run(c *core.Ctx, idx int) {
 		}
 		sh = append([]gen.Seg{com}, sh...)
 	}
+	if len(sh) > 0 && r.Chance(1, 5) {
+		// fill bytes: any marker may be preceded by any number of 0xFF bytes
+		for k := r.Range(1, 3); k > 0; k-- {
+			sh[r.Intn(len(sh))].Fill = r.Pick(1, 1, 2, 3, 7)
+		}
+	}
 	j := gen.BuildJPEG(r, sh, r.Range(64, 300))
 	// ---- expected callbacks
 	var want []gen.Seg
